@@ -108,6 +108,7 @@ type world struct {
 	users        []*node.Account
 	adv          *node.Account
 	tss          *node.Account
+	tss2         *node.Account // the account the TSS group moves to when it rotates (and back)
 	m            *model
 	wire         []*wireMsg
 	history      []*relayMsg
@@ -165,9 +166,10 @@ func newWorld(cfg map[string]int64, rec *kernel.Rec) (*world, error) {
 	}
 	w.adv = node.NewAccount(rng, "adv")
 	w.tss = node.NewAccount(rng, "tss")
+	w.tss2 = node.NewAccount(rng, "tss2")
 	accounts := append([]*node.Account{w.gov}, w.relayers...)
 	accounts = append(accounts, w.users...)
-	accounts = append(accounts, w.adv, w.tss)
+	accounts = append(accounts, w.adv, w.tss, w.tss2)
 
 	n := int(cfg["chains"])
 	for i := 0; i < n; i++ {
@@ -272,6 +274,8 @@ func newWorld(cfg map[string]int64, rec *kernel.Rec) (*world, error) {
 			}
 			contents = append(contents, p, clienttypes.NewRegisterRelayerProposal("reg", "tss relayer", w.tss.Acc.String(), []string{w.tssName()}, []string{w.tss.Acc.String()}))
 			c.registry[w.tss.Acc.String()] = map[string]string{w.tssName(): w.tss.Acc.String()}
+			contents = append(contents, clienttypes.NewRegisterRelayerProposal("reg", "tss relayer 2", w.tss2.Acc.String(), []string{w.tssName()}, []string{w.tss2.Acc.String()}))
+			c.registry[w.tss2.Acc.String()] = map[string]string{w.tssName(): w.tss2.Acc.String()}
 		}
 		for ri, r := range w.relayers {
 			var chains, addrs []string
